@@ -70,30 +70,104 @@ TypeNodes(env, T, fuel) ==
 TypeHas(env, T, P(_)) ==
   LET ns == TypeNodes(env, T, Cardinality(DOMAIN env.types) + 1) IN \E j \in 1..Len(ns) : P(ns[j])
 
+\* SEQUENCE value nodes of a value (through present members, selected alternatives, elements)
+RECURSIVE SeqVals(_, _, _)
+SeqVals(env, T, v) ==
+  CASE T.k = "REF" -> SeqVals(env, env.types[T.name], v)
+    [] T.k = "SEQ" ->
+         LET ms == AllMembers(T)
+         IN <<[t |-> T, v |-> v]>> \o
+            Concat([j \in 1..Len(ms) |-> IF v[ms[j].n].p THEN SeqVals(env, ms[j].t, v[ms[j].n].v) ELSE <<>>])
+    [] T.k = "CHOICE" -> LET alts == AllAlts(T) IN SeqVals(env, alts[MemberIndex(alts, v.a)].t, v.v)
+    [] T.k = "SEQOF" -> Concat([j \in 1..Len(v) |-> SeqVals(env, T.e, v[j])])
+    [] OTHER -> <<>>
+
 \* the width class the unsigned and the signed bound fall into (8/16/32/64)
 UWidth(ub) == IF Leq(ub, FromInt(255)) THEN 8 ELSE IF Leq(ub, FromInt(65535)) THEN 16
               ELSE IF Leq(ub, Pred(TwoTo(32))) THEN 32 ELSE 64
 SWidthLb(lb) == IF Leq(FromInt(-128), lb) THEN 8 ELSE IF Leq(FromInt(-32768), lb) THEN 16
                 ELSE IF Leq(Neg(TwoTo(31)), lb) THEN 32 ELSE 64
+IsClosedInt(T) == T.k = "INT" /\ T.con.f = "R" /\ ~T.con.lbinf /\ ~T.con.ubinf
+
 \* INTEGER (lb..ub) with lb < 0 whose upper bound needs one more bit than the unsigned
-\* width class of ub offers, e.g. (-1..255), (-128..65407)
+\* width class of ub offers, e.g. (-1..255), (-128..65407)  [source/c/utils.py type_length]
 IsSignedUpperHalf(T) ==
-  /\ T.k = "INT" /\ T.con.f = "R" /\ ~T.con.lbinf /\ ~T.con.ubinf
-  /\ T.con.lb.neg
+  /\ IsClosedInt(T) /\ T.con.lb.neg
   /\ LET w == Max2(UWidth(T.con.ub), SWidthLb(T.con.lb)) IN ~Leq(T.con.ub, Pred(TwoTo(w - 1)))
+
+\* signed INTEGER (lb..ub), lb # -2^63, whose range spans 2^63 or more values: value - lb overflows int64_t
+\* [source/c/uper.py format_integer_inner: (uint64_t)(src_p->x - lb), dst_p->x += lb]
+IsInt64Offset(T) ==
+  /\ IsClosedInt(T) /\ T.con.lb.neg /\ ~Eq(T.con.lb, Neg(CP63))
+  /\ Leq(CP63, Sub(T.con.ub, T.con.lb))
 
 HasDefaultOf(T, kinds, env) ==
   T.k = "SEQ" /\ \E j \in 1..Len(AllMembers(T)) : AllMembers(T)[j].q = "D" /\ Base(env, AllMembers(T)[j].t).k \in kinds
+HasDefaultFixedOcts(T, env) ==
+  T.k = "SEQ" /\ \E j \in 1..Len(AllMembers(T)) :
+     LET m == AllMembers(T)[j] IN m.q = "D" /\ Base(env, m.t).k = "OCTS" /\ Base(env, m.t).sz.lb = Base(env, m.t).sz.ub
+HasDefaultBoolRef(T, env) ==
+  T.k = "SEQ" /\ \E j \in 1..Len(AllMembers(T)) :
+     LET m == AllMembers(T)[j] IN m.q = "D" /\ m.t.k = "REF" /\ Base(env, m.t).k = "BOOL"
 
-CaseClasses(env, T, codec) ==
-  (IF codec = "uper" /\ TypeHas(env, T, LAMBDA t : t.k = "CHOICE" /\ t.ext) THEN {"UperChoiceExtensionMarker"} ELSE {})
-  \cup (IF codec = "uper" /\ TypeHas(env, T, LAMBDA t : t.k = "ENUM" /\ t.ext) THEN {"UperEnumExtensionMarker"} ELSE {})
-  \cup (IF TypeHas(env, T, IsSignedUpperHalf) THEN {"IntSignedUpperHalf"} ELSE {})
-  \cup (IF TypeHas(env, T, LAMBDA t : HasDefaultOf(t, {"BITS"}, env)) THEN {"DefaultBitString"} ELSE {})
-  \cup (IF codec = "oer" /\ TypeHas(env, T, LAMBDA t : t.k = "BITS" /\ t.sz.f = "R" /\ t.sz.ub > 32 /\ t.sz.ub <= 56)
-        THEN {"OerBitString33to56"} ELSE {})
+AdditionTypes(T) == IF T.k = "SEQ" THEN [j \in 1..Len(AddMembers(T.adds)) |-> AddMembers(T.adds)[j].t] ELSE <<>>
+\* some extension addition of T contains (at any depth) a type satisfying P
+AdditionHas(env, T, P(_)) == \E j \in 1..Len(AdditionTypes(T)) : TypeHas(env, AdditionTypes(T)[j], P)
 
-ClassText(env, T, codec) == " applicable:" \o ToString(CaseClasses(env, T, codec))
+AddPresent(n) == \E j \in 1..Len(AddMembers(n.t.adds)) : n.v[AddMembers(n.t.adds)[j].n].p
+\* a non-OPTIONAL, non-DEFAULT addition is absent while another addition is present
+MandatoryAdditionAbsent(n) ==
+  /\ AddPresent(n)
+  /\ \E j \in 1..Len(AddMembers(n.t.adds)) : AddMembers(n.t.adds)[j].q = "M" /\ ~n.v[AddMembers(n.t.adds)[j].n].p
+\* the number of additions is a positive multiple of 8 and an addition is present
+AdditionsMultipleOf8(n) == Len(AddMembers(n.t.adds)) > 0 /\ Len(AddMembers(n.t.adds)) % 8 = 0 /\ AddPresent(n)
+\* some member that is not mandatory (OPTIONAL / DEFAULT / an addition) is not encoded
+SomethingOmitted(env, n) ==
+  \E j \in 1..Len(AllMembers(n.t)) :
+     LET m == AllMembers(n.t)[j]
+     IN \/ ~n.v[m.n].p
+        \/ m.q = "D" /\ AbsEq(env, m.t, n.v[m.n].v, m.d)
+\* a present extension addition contains a SEQUENCE value in which something is omitted
+AdditionWithOmission(env, n) ==
+  \E j \in 1..Len(AddMembers(n.t.adds)) :
+     LET m == AddMembers(n.t.adds)[j]
+     IN n.v[m.n].p /\ \E k \in 1..Len(SeqVals(env, m.t, n.v[m.n].v)) : SomethingOmitted(env, SeqVals(env, m.t, n.v[m.n].v)[k])
+
+AnySeqVal(env, T, v, P(_)) == \E j \in 1..Len(SeqVals(env, T, v)) : P(SeqVals(env, T, v)[j])
+
+\* classes of the type (independent of the value) that matter for check `chk`
+TypeClasses(chk, env, T, codec) ==
+  LET bytesChk == chk \in {"ENC", "SMALL", "DEC", "REENC"}
+      on(c, name) == IF c THEN {name} ELSE {}
+  IN on(codec = "uper" /\ bytesChk /\ TypeHas(env, T, LAMBDA t : t.k = "CHOICE" /\ t.ext), "UperChoiceExtensionMarker")
+     \cup on(codec = "uper" /\ bytesChk /\ TypeHas(env, T, LAMBDA t : t.k = "ENUM" /\ t.ext), "UperEnumExtensionMarker")
+     \cup on((bytesChk \/ chk \in {"SET", "V1V2"}) /\ TypeHas(env, T, IsSignedUpperHalf), "IntSignedUpperHalf")
+     \cup on(codec = "uper" /\ chk = "CRASH" /\ TypeHas(env, T, IsInt64Offset), "UperInt64OffsetOverflow")
+     \cup on(chk = "CC" /\ TypeHas(env, T, LAMBDA t : HasDefaultOf(t, {"BITS"}, env)), "DefaultBitString")
+     \cup on(chk = "CC" /\ TypeHas(env, T, LAMBDA t : HasDefaultFixedOcts(t, env)), "DefaultFixedOctetString")
+     \cup on(bytesChk /\ TypeHas(env, T, LAMBDA t : HasDefaultBoolRef(t, env)), "DefaultBooleanViaReference")
+     \cup on(codec = "oer" /\ chk = "V1V2" /\ TypeHas(env, T, LAMBDA t : t.k = "SEQ" /\ t.ext /\ t.adds = <<>>),
+             "OerEmptyExtensionMarkerNotSkipped")
+     \cup on(codec = "oer" /\ chk = "GEN" /\ TypeHas(env, T, LAMBDA t : AdditionHas(env, t, LAMBDA u : u.k = "BITS")),
+             "OerBitStringInAddition")
+     \cup on(codec = "oer" /\ chk = "CC"
+             /\ TypeHas(env, T, LAMBDA t : AdditionHas(env, t, LAMBDA u : u.k = "SEQOF" /\ u.sz.lb = u.sz.ub)),
+             "OerFixedSequenceOfInAddition")
+     \cup on(codec = "oer" /\ (bytesChk \/ chk = "SET") /\ TypeHas(env, T, LAMBDA t : t.k = "CHOICE" /\ t.adds # <<>>),
+             "OerChoiceAdditions")
+
+\* classes of the value
+ValueClasses(chk, env, T, v, codec) ==
+  LET bytesChk == chk \in {"ENC", "SMALL", "DEC", "REENC", "V1V2"}
+      on(c, name) == IF c THEN {name} ELSE {}
+  IN on(codec = "oer" /\ bytesChk /\ AnySeqVal(env, T, v, MandatoryAdditionAbsent), "OerMandatoryAdditionAbsent")
+     \cup on(codec = "oer" /\ bytesChk /\ AnySeqVal(env, T, v, AdditionsMultipleOf8), "OerAdditionsMultipleOf8")
+     \cup on(codec = "oer" /\ bytesChk /\ AnySeqVal(env, T, v, LAMBDA n : AdditionWithOmission(env, n)),
+             "OerAdditionLengthNotActual")
+
+TClass(chk, env, T, codec) == " applicable:" \o ToString(TypeClasses(chk, env, T, codec))
+VClass(chk, env, T, v, codec) ==
+  " applicable:" \o ToString(TypeClasses(chk, env, T, codec) \cup ValueClasses(chk, env, T, v, codec))
 
 ------------------------------------------------------------------------------
 (* member-wise comparison of a struct image                                  *)
@@ -123,58 +197,61 @@ FieldsDiff(exp, obsf) ==
 ------------------------------------------------------------------------------
 (* the checks                                                                *)
 
-GenVerdict(L, why, cls) ==
+GenVerdict(L, env, T, why) ==
   IF why # ""
   THEN IF L.gen.st = "exc" /\ InMro(L.gen, "asn1tools.errors.Error") THEN V("GEN", 0, "ok", "")
        ELSE IF L.gen.st = "ok"
        THEN V("GEN", 0, "reject", "generator accepted a type outside the documented subset (" \o why \o ") and emitted: "
                                    \o (IF Has(L, "emitted") THEN L.emitted ELSE "?")
                                    \o " applicable:{\"AcceptedUnsupported:" \o L.codec \o ":" \o why \o "\"}")
-       ELSE V("GEN", 0, "reject", "gen-" \o ExcKey(L.gen))
+       ELSE V("GEN", 0, "reject", "refused-with-foreign-exception:" \o L.codec \o ":" \o ExcKey(L.gen)
+                                   \o " applicable:{\"ForeignException:" \o L.codec \o ":" \o why \o "\"}")
   ELSE IF L.gen.st = "ok" THEN V("GEN", 0, "ok", "")
-       ELSE V("GEN", 0, "reject", "refused-supported:" \o L.codec \o ":" \o ExcKey(L.gen) \o cls)
+       ELSE V("GEN", 0, "reject", "refused-supported:" \o L.codec \o ":" \o ExcKey(L.gen) \o TClass("GEN", env, T, L.codec))
 
-CcVerdict(L, cls) ==
+CcVerdict(L, env, T) ==
   IF L.cc.gcc.rc = 0 /\ L.cc.clang.rc = 0 /\ (~Has(L, "header_error") \/ L.header_error = "") THEN V("CC", 0, "ok", "")
   ELSE V("CC", 0, "reject",
          "generated source does not compile: " \o
          (IF Has(L, "header_error") /\ L.header_error # "" THEN "header: " \o L.header_error
           ELSE IF L.cc.gcc.rc # 0 THEN "gcc: " \o L.cc.gcc.first_error
-          ELSE "clang: " \o (IF L.cc.clang.errs = <<>> THEN "?" ELSE L.cc.clang.errs[1])) \o cls)
+          ELSE "clang: " \o (IF L.cc.clang.errs = <<>> THEN "?" ELSE L.cc.clang.errs[1])) \o TClass("CC", env, T, L.codec))
 
-ValueVerdicts(L, o, env, T, cls) ==
+ValueVerdicts(L, o, env, T) ==
   LET vi == o.vi IN
   IF Has(o, "machinery") THEN <<V("ANY", vi, "machinery", o.machinery)>>
   ELSE IF o.py.st # "ok" THEN <<V("ENC", vi, "skip", "python codec did not encode the value: " \o ExcKey(o.py))>>
   ELSE
   LET v == L.vals[vi]
+      cls(chk) == VClass(chk, env, T, v, L.codec)
       exp == CStruct(env, T, v, L.codec)
       py == o.py.b
       n == Len(py)
       setV == IF o.set = <<>> THEN V("SET", vi, "ok", "")
               ELSE V("SET", vi, "reject", "the generated struct cannot hold the value: member " \o o.set[1].p \o " " \o o.set[1].err
-                                          \o (IF Has(o.set[1], "ct") THEN " (C type " \o o.set[1].ct \o ")" ELSE "") \o cls)
+                                          \o (IF Has(o.set[1], "ct") THEN " (C type " \o o.set[1].ct \o ")" ELSE "") \o cls("SET"))
       encV == IF o.set # <<>> \/ ~Has(o, "enc") \/ Has(o.enc, "crashed") THEN <<>>
               ELSE LET e == o.enc
                    IN << IF e.rets[n + 1] = n /\ e.b = py /\ e.rets[n + 2] = n /\ e.b1 = py THEN V("ENC", vi, "ok", "")
                          ELSE V("ENC", vi, "reject",
                                 "C encoder output differs from the python codec: C returned " \o ToString(e.big.ret) \o " " \o Hex(e.big.b)
-                                \o " (exact-size buffer: " \o ToString(e.rets[n + 1]) \o "), python " \o ToString(n) \o " " \o Hex(py) \o cls),
+                                \o " (exact-size buffer: " \o ToString(e.rets[n + 1]) \o "), python " \o ToString(n) \o " " \o Hex(py)
+                                \o cls("ENC")),
                          LET small == SelectSeq([s \in 1..n |-> s], LAMBDA s : e.rets[s] >= 0)
                          IN IF small = <<>> THEN V("SMALL", vi, "ok", "")
                             ELSE V("SMALL", vi, "reject",
                                    "destination of " \o ToString(small[1] - 1) \o " octets for an encoding of " \o ToString(n)
-                                   \o ": encoder returned " \o ToString(e.rets[small[1]]) \o cls) >>
+                                   \o ": encoder returned " \o ToString(e.rets[small[1]]) \o cls("SMALL")) >>
       decV == IF ~Has(o, "dec") \/ Has(o.dec, "crashed") THEN <<>>
               ELSE IF o.dec.ret # n
               THEN <<V("DEC", vi, "reject", "C decoder returned " \o ToString(o.dec.ret) \o " for the " \o ToString(n)
-                                            \o " octets " \o Hex(py) \o " of the python codec" \o cls)>>
+                                            \o " octets " \o Hex(py) \o " of the python codec" \o cls("DEC"))>>
               ELSE LET d == FieldsDiff(exp, o.dec.f)
-                   IN << IF d = "" THEN V("DEC", vi, "ok", "") ELSE V("DEC", vi, "reject", "decoded struct differs: " \o d \o cls) >>
+                   IN << IF d = "" THEN V("DEC", vi, "ok", "") ELSE V("DEC", vi, "reject", "decoded struct differs: " \o d \o cls("DEC")) >>
                       \o (IF ~Has(o, "re") THEN <<>>
                           ELSE << IF o.re.ret = n /\ o.re.b = py THEN V("REENC", vi, "ok", "")
                                   ELSE V("REENC", vi, "reject", "re-encoding of the decoded struct: " \o ToString(o.re.ret) \o " "
-                                                                \o Hex(o.re.b) \o ", python " \o Hex(py) \o cls) >>)
+                                                                \o Hex(o.re.b) \o ", python " \o Hex(py) \o cls("REENC")) >>)
   IN <<setV>> \o encV \o decV
 
 AdvOk(a) == /\ a.e1 >= 0
@@ -189,24 +266,26 @@ AdvWhy(a) ==
   ELSE IF a.i1 # a.i2 THEN "decode -> encode -> decode gives a different struct"
   ELSE "second encoding differs from the first"
 
-AdvVerdicts(L, cls) ==
+AdvVerdicts(L, env, T) ==
   LET acc == L.adv.accepted
       bad == SelectSeq(acc, LAMBDA a : ~AdvOk(a))
-  IN [j \in 1..Len(bad) |-> V("ADV", 0, "reject", AdvWhy(bad[j]) \o "; input " \o Hex(bad[j]["in"]) \o cls)]
+  IN [j \in 1..Len(bad) |-> V("ADV", 0, "reject", AdvWhy(bad[j]) \o "; input " \o Hex(bad[j]["in"]) \o TClass("ADV", env, T, L.codec))]
 
 AdvOkCount(L) == L.adv.rejected + L.adv.accepted_more + Len(SelectSeq(L.adv.accepted, AdvOk))
 
-CrashVerdicts(L) ==
+CrashVerdicts(L, env, T) ==
   [j \in 1..Len(L.crashes) |->
-     V("CRASH", L.crashes[j].vi, "reject", "crash:" \o L.crashes[j].kind \o "@" \o L.crashes[j].frame)]
+     V("CRASH", L.crashes[j].vi, "reject", "crash:" \o L.crashes[j].kind \o "@" \o L.crashes[j].frame \o TClass("CRASH", env, T, L.codec))]
 
-PairVerdicts(L, env, T, cls) ==
+PairVerdicts(L, env, T) ==
   LET one(p) ==
         IF p.py.st # "ok" THEN V("V1V2", p.vi, "skip", "python codec did not encode the version-2 value: " \o ExcKey(p.py))
         ELSE IF ~Has(p, "dec") \/ Has(p.dec, "crashed") THEN V("V1V2", p.vi, "skip", "crashed (judged as CRASH)")
         ELSE LET T2 == L.env2.types[L.top]
-                 exp == CStruct(env, T, ProjectV(env, T, L.env2, T2, L.vals2[p.vi]), L.codec)
+                 v2 == L.vals2[p.vi]
+                 exp == CStruct(env, T, ProjectV(env, T, L.env2, T2, v2), L.codec)
                  n == Len(p.py.b)
+                 cls == " applicable:" \o ToString(TypeClasses("V1V2", env, T, L.codec) \cup ValueClasses("V1V2", L.env2, T2, v2, L.codec))
              IN IF p.dec.ret # n
                 THEN V("V1V2", p.vi, "reject", "version-1 decoder returned " \o ToString(p.dec.ret) \o " for the " \o ToString(n)
                                                \o " octets " \o Hex(p.py.b) \o " of version 2" \o cls)
@@ -219,15 +298,14 @@ LineVerdicts(L) ==
   LET env == L.env
       T == env.types[L.top]
       why == WhyOutside(env, T, L.codec)
-      cls == IF why = "" THEN ClassText(env, T, L.codec) ELSE ""
-      g == GenVerdict(L, why, cls)
+      g == GenVerdict(L, env, T, why)
   IN IF why # "" \/ L.gen.st # "ok" THEN <<g>>
-     ELSE IF ~Has(L, "obs") THEN <<g, CcVerdict(L, cls)>>
-     ELSE <<g, CcVerdict(L, cls)>>
-          \o Concat([j \in 1..Len(L.obs) |-> ValueVerdicts(L, L.obs[j], env, T, cls)])
-          \o AdvVerdicts(L, cls)
-          \o CrashVerdicts(L)
-          \o PairVerdicts(L, env, T, cls)
+     ELSE IF ~Has(L, "obs") THEN <<g, CcVerdict(L, env, T)>>
+     ELSE <<g, CcVerdict(L, env, T)>>
+          \o Concat([j \in 1..Len(L.obs) |-> ValueVerdicts(L, L.obs[j], env, T)])
+          \o AdvVerdicts(L, env, T)
+          \o CrashVerdicts(L, env, T)
+          \o PairVerdicts(L, env, T)
 
 LineReport(L) ==
   LET all == LineVerdicts(L)
